@@ -218,6 +218,12 @@ def make(seed, i, flavours):
     else:
         case = F.make_case(seed, PROP, i, flavours=flavours)
         mode = ("intact", "nocursor", "badcursor", "intact")[(i // 4) % 4]
+        if case["family"].startswith("REUSE"):
+            # with a lost cursor the engine cannot learn of deletions (the walk reports what exists); taking a vacated name
+            # again, possibly with the other type, is then a name clash with the peer's stale object - outside the
+            # statement's walk-fallback clause (which speaks of creations and modifications).  Name reuse is exercised
+            # across restarts with the cursor intact.
+            mode = "intact"
     return with_restarts(case, rng, mode)
 
 
